@@ -1171,6 +1171,44 @@ def gen_world_short_last_digest(rng):
     return w
 
 
+def gen_world_infohash_prefix_pair(rng):
+    """C12 corpus: two torrents whose info-hashes share their first 8 bytes (corpus/infohash_prefix_pair.json). Anything
+    keyed by a truncated hash binds B's first file to A's export image; a correct run writes nothing here (neither
+    torrent's data is present)."""
+    import json
+    d = json.load(open(os.path.join(os.path.dirname(os.path.dirname(os.path.abspath(__file__))), "corpus", "infohash_prefix_pair.json")))
+    doc = lambda info_hex: b"d4:info" + bytes.fromhex(info_hex) + b"e"
+    w = World()
+    w.docs = [doc(d["B_info"]), doc(d["A_info"])] if rng.chance(1, 2) else [doc(d["A_info"]), doc(d["B_info"])]
+    w.has_truth = False
+    w.dirs.add(w.export)
+    w.scan = [(b"scan0",)]
+    w.add_file((b"scan0", b"sixty.bin"), bytes((i * 7 + 3) & 255 for i in range(60)))
+    w.add_file((b"scan0", b"hundred.bin"), bytes((i * 13 + 1) & 255 for i in range(100)))
+    w.add_file((b"bystander", b"note.txt"), b"do not touch")
+    w.threads = rng.choice([1, 1, 2])
+    w.tag = "info-hashes sharing a 64-bit prefix"
+    return w
+
+
+def gen_world_short_image(rng):
+    """fault worlds: an export image left SHORT by a client that does not pre-allocate, holding some verified pieces; the
+    complete file is in the scan directory. Whatever fails while the rest is written, the verified pieces stay."""
+    w = World()
+    L = rng.choice([2, 3, 4])
+    n = rng.range(3, 5)
+    ln = L * n - rng.below(L)
+    f = TFile(ln, [b"short.bin"], gen_content(rng, ln))
+    g = GT(b"short.bin", L, [f], False)
+    w.gts = [g]; w.docs = [g.doc]
+    w.dirs.add(w.export)
+    w.scan = [(b"scan0",)]
+    w.add_file((b"scan0", b"complete.bin"), f.content)
+    w.add_file(tuple(g.target(w.export, f)), f.content[: L * rng.range(1, n - 1)])
+    w.add_file((b"bystander", b"note.txt"), b"do not touch")
+    return w
+
+
 def gen_world_misfiled(rng):
     """C01: export images that hold ANOTHER torrent file's (correct) bytes — a mis-filed download. The matcher may
     legitimately use such an image as the source of the other file's segment; what is written must still be the
